@@ -486,3 +486,114 @@ Theorem C03_more_hyps_inhabited :
   /\ k1 K8Ops <> k0 K8Ops.
 Proof. exact more_hyps_inhabited. Qed.
 Print Assumptions C03_more_hyps_inhabited.
+
+(* ---- unitarity of the documented closed forms, for every exponent and global shift (Gates/UnitaryProofs.v):
+        r = exp(i pi t / 2), the global phase g and the other unit parameters come with their conjugate-and-inverse ---- *)
+From VF Require Import Gates.UnitaryProofs.
+Theorem C03_unitary_XPow : forall K (O : Ops K), Laws O -> forall r rc g gc, unit_pair O r rc -> unit_pair O g gc ->
+  mmul O (spec_XPow O r rc g) (mdagger O (spec_XPow O r rc g)) = mid O 2.
+Proof. exact @unitary_XPow. Qed.
+Print Assumptions C03_unitary_XPow.
+Theorem C03_unitary_YPow : forall K (O : Ops K), Laws O -> forall r rc g gc, unit_pair O r rc -> unit_pair O g gc ->
+  mmul O (spec_YPow O r rc g) (mdagger O (spec_YPow O r rc g)) = mid O 2.
+Proof. exact @unitary_YPow. Qed.
+Print Assumptions C03_unitary_YPow.
+Theorem C03_unitary_ZPow : forall K (O : Ops K), Laws O -> forall r rc g gc, unit_pair O r rc -> unit_pair O g gc ->
+  mmul O (spec_ZPow O r rc g) (mdagger O (spec_ZPow O r rc g)) = mid O 2.
+Proof. exact @unitary_ZPow. Qed.
+Print Assumptions C03_unitary_ZPow.
+Theorem C03_unitary_HPow : forall K (O : Ops K), Laws O -> forall r rc g gc, unit_pair O r rc -> unit_pair O g gc ->
+  mmul O (spec_HPow O r rc g) (mdagger O (spec_HPow O r rc g)) = mid O 2.
+Proof. exact @unitary_HPow. Qed.
+Print Assumptions C03_unitary_HPow.
+Theorem C03_unitary_CZPow : forall K (O : Ops K), Laws O -> forall r rc g gc, unit_pair O r rc -> unit_pair O g gc ->
+  mmul O (spec_CZPow O r rc g) (mdagger O (spec_CZPow O r rc g)) = mid O 4.
+Proof. exact @unitary_CZPow. Qed.
+Print Assumptions C03_unitary_CZPow.
+Theorem C03_unitary_CXPow : forall K (O : Ops K), Laws O -> forall r rc g gc, unit_pair O r rc -> unit_pair O g gc ->
+  mmul O (spec_CXPow O r rc g) (mdagger O (spec_CXPow O r rc g)) = mid O 4.
+Proof. exact @unitary_CXPow. Qed.
+Print Assumptions C03_unitary_CXPow.
+Theorem C03_unitary_CYPow : forall K (O : Ops K), Laws O -> forall r rc g gc, unit_pair O r rc -> unit_pair O g gc ->
+  mmul O (spec_CYPow O r rc g) (mdagger O (spec_CYPow O r rc g)) = mid O 4.
+Proof. exact @unitary_CYPow. Qed.
+Print Assumptions C03_unitary_CYPow.
+Theorem C03_unitary_SwapPow : forall K (O : Ops K), Laws O -> forall r rc g gc, unit_pair O r rc -> unit_pair O g gc ->
+  mmul O (spec_SwapPow O r rc g) (mdagger O (spec_SwapPow O r rc g)) = mid O 4.
+Proof. exact @unitary_SwapPow. Qed.
+Print Assumptions C03_unitary_SwapPow.
+Theorem C03_unitary_ISwapPow : forall K (O : Ops K), Laws O -> forall r rc g gc, unit_pair O r rc -> unit_pair O g gc ->
+  mmul O (spec_ISwapPow O r rc g) (mdagger O (spec_ISwapPow O r rc g)) = mid O 4.
+Proof. exact @unitary_ISwapPow. Qed.
+Print Assumptions C03_unitary_ISwapPow.
+Theorem C03_unitary_XXPow : forall K (O : Ops K), Laws O -> forall r rc g gc, unit_pair O r rc -> unit_pair O g gc ->
+  mmul O (spec_XXPow O r rc g) (mdagger O (spec_XXPow O r rc g)) = mid O 4.
+Proof. exact @unitary_XXPow. Qed.
+Print Assumptions C03_unitary_XXPow.
+Theorem C03_unitary_YYPow : forall K (O : Ops K), Laws O -> forall r rc g gc, unit_pair O r rc -> unit_pair O g gc ->
+  mmul O (spec_YYPow O r rc g) (mdagger O (spec_YYPow O r rc g)) = mid O 4.
+Proof. exact @unitary_YYPow. Qed.
+Print Assumptions C03_unitary_YYPow.
+Theorem C03_unitary_ZZPow : forall K (O : Ops K), Laws O -> forall r rc g gc, unit_pair O r rc -> unit_pair O g gc ->
+  mmul O (spec_ZZPow O r rc g) (mdagger O (spec_ZZPow O r rc g)) = mid O 4.
+Proof. exact @unitary_ZZPow. Qed.
+Print Assumptions C03_unitary_ZZPow.
+Theorem C03_unitary_CCZPow : forall K (O : Ops K), Laws O -> forall r rc g gc, unit_pair O r rc -> unit_pair O g gc ->
+  mmul O (spec_CCZPow O r rc g) (mdagger O (spec_CCZPow O r rc g)) = mid O 8.
+Proof. exact @unitary_CCZPow. Qed.
+Print Assumptions C03_unitary_CCZPow.
+Theorem C03_unitary_CCXPow : forall K (O : Ops K), Laws O -> forall r rc g gc, unit_pair O r rc -> unit_pair O g gc ->
+  mmul O (spec_CCXPow O r rc g) (mdagger O (spec_CCXPow O r rc g)) = mid O 8.
+Proof. exact @unitary_CCXPow. Qed.
+Print Assumptions C03_unitary_CCXPow.
+Theorem C03_unitary_CCYPow : forall K (O : Ops K), Laws O -> forall r rc g gc, unit_pair O r rc -> unit_pair O g gc ->
+  mmul O (spec_CCYPow O r rc g) (mdagger O (spec_CCYPow O r rc g)) = mid O 8.
+Proof. exact @unitary_CCYPow. Qed.
+Print Assumptions C03_unitary_CCYPow.
+Theorem C03_unitary_Z4Pow : forall K (O : Ops K), Laws O -> forall r rc g gc, unit_pair O r rc -> unit_pair O g gc ->
+  mmul O (spec_Z4Pow O r rc g) (mdagger O (spec_Z4Pow O r rc g)) = mid O 4.
+Proof. exact @unitary_Z4Pow. Qed.
+Print Assumptions C03_unitary_Z4Pow.
+Theorem C03_unitary_FSim : forall K (O : Ops K), Laws O -> forall u uc v vc, unit_pair O u uc -> unit_pair O v vc ->
+  mmul O (spec_FSim O u uc v vc) (mdagger O (spec_FSim O u uc v vc)) = mid O 4.
+Proof. exact @unitary_FSim. Qed.
+Print Assumptions C03_unitary_FSim.
+Theorem C03_unitary_PhasedX : forall K (O : Ops K), Laws O -> forall f fc r rc g gc, unit_pair O f fc -> unit_pair O r rc -> unit_pair O g gc ->
+  mmul O (spec_PhasedX O f fc r rc g) (mdagger O (spec_PhasedX O f fc r rc g)) = mid O 2.
+Proof. exact @unitary_PhasedX. Qed.
+Print Assumptions C03_unitary_PhasedX.
+Theorem C03_unitary_PhasedXZ : forall K (O : Ops K), Laws O -> forall a ac fz fzc r rc, unit_pair O a ac -> unit_pair O fz fzc -> unit_pair O r rc ->
+  mmul O (spec_PhasedXZ O a ac fz fzc r rc) (mdagger O (spec_PhasedXZ O a ac fz fzc r rc)) = mid O 2.
+Proof. exact @unitary_PhasedXZ. Qed.
+Print Assumptions C03_unitary_PhasedXZ.
+Theorem C03_unitary_PhasedISwap : forall K (O : Ops K), Laws O -> forall f fc r rc g gc, unit_pair O f fc -> unit_pair O r rc -> unit_pair O g gc ->
+  mmul O (spec_PhasedISwap O f fc r rc g) (mdagger O (spec_PhasedISwap O f fc r rc g)) = mid O 4.
+Proof. exact @unitary_PhasedISwap. Qed.
+Print Assumptions C03_unitary_PhasedISwap.
+Theorem C03_unitary_GPI : forall K (O : Ops K), Laws O -> forall p pc, unit_pair O p pc ->
+  mmul O (spec_GPI O p pc) (mdagger O (spec_GPI O p pc)) = mid O 2.
+Proof. exact @unitary_GPI. Qed.
+Print Assumptions C03_unitary_GPI.
+Theorem C03_unitary_GPI2 : forall K (O : Ops K), Laws O -> forall p pc, unit_pair O p pc ->
+  mmul O (spec_GPI2 O p pc) (mdagger O (spec_GPI2 O p pc)) = mid O 2.
+Proof. exact @unitary_GPI2. Qed.
+Print Assumptions C03_unitary_GPI2.
+Theorem C03_unitary_IonqMS : forall K (O : Ops K), Laws O -> forall a ac b bc r rc, unit_pair O a ac -> unit_pair O b bc -> unit_pair O r rc ->
+  mmul O (spec_IonqMS O a ac b bc r rc) (mdagger O (spec_IonqMS O a ac b bc r rc)) = mid O 4.
+Proof. exact @unitary_IonqMS. Qed.
+Print Assumptions C03_unitary_IonqMS.
+Theorem C03_unitary_IonqZZ : forall K (O : Ops K), Laws O -> forall r rc, unit_pair O r rc ->
+  mmul O (spec_IonqZZ O r rc) (mdagger O (spec_IonqZZ O r rc)) = mid O 4.
+Proof. exact @unitary_IonqZZ. Qed.
+Print Assumptions C03_unitary_IonqZZ.
+Theorem C03_unitary_PhasedFSim : forall K (O : Ops K), Laws O -> forall u uc ze zec ch chc ga gac ph phc, unit_pair O u uc -> unit_pair O ze zec -> unit_pair O ch chc -> unit_pair O ga gac -> unit_pair O ph phc ->
+  mmul O (spec_PhasedFSim O u uc ze zec ch chc ga gac ph phc) (mdagger O (spec_PhasedFSim O u uc ze zec ch chc ga gac ph phc)) = mid O 4.
+Proof. exact @unitary_PhasedFSim. Qed.
+Print Assumptions C03_unitary_PhasedFSim.
+Theorem C03_unitary_X4Pow : forall K (O : Ops K), Laws O -> forall r rc g gc, unit_pair O r rc -> unit_pair O g gc ->
+  mmul O (spec_X4Pow O r rc g) (mdagger O (spec_X4Pow O r rc g)) = mid O 4.
+Proof. exact @unitary_X4Pow. Qed.
+Print Assumptions C03_unitary_X4Pow.
+(* the hypotheses are satisfiable: i is a unit whose conjugate is its inverse (exponent 1), in the exact instance *)
+Example C03_unit_pair_inhabited : unit_pair K8Ops (ki K8Ops) (kopp K8Ops (ki K8Ops)).
+Proof. repeat split; vm_compute; reflexivity. Qed.
